@@ -263,7 +263,7 @@ wait_fg_job = Fn(J, 'wait_fg_job', ret='r', rewrites=RW,
     requires=[('C06.pre.wf', 'wf(old(sh).jobs@)'), ('C06.pre.pids_positive', 'forall|i: int| 0 <= i < pids@.len() ==> (#[trigger] pids@[i]) > 0')],
     ensures=[
         ('C06.wait.wf', 'wf(final(sh).jobs@)'),
-        ('C06.wait.no_background_event_lost',
+        ('C06+C07.wait.no_background_event_lost',
          'forall|i: int| ' + NEW_EVENTS.replace('K', 'final(k)') + ' && !pids@.contains((#[trigger] final(k).delivered[i]).0) '
          '&& 0 <= final(k).delivered[i].1 <= 3 && final(k).delivered[i].0 > 0 ==> parked(*final(k), final(k).delivered[i])'),
         ('C02.wait.status_is_last_stage_status',
@@ -280,7 +280,7 @@ wait_fg_job = Fn(J, 'wait_fg_job', ret='r', rewrites=RW,
     loops={0: Loop(invariant=[
         ('C06.inv.wait.wf', 'wf(sh.jobs@)'),
         ('C06.inv.wait.stream', 'old(k).delivered.len() <= k.delivered.len() && count_child == pids@.len() && pids@.len() > 0 && *pid_last == pids@.last() && forall|i: int| 0 <= i < pids@.len() ==> (#[trigger] pids@[i]) > 0'),
-        ('C06.inv.wait.parked',
+        ('C06+C07.inv.wait.parked',
          'forall|i: int| ' + NEW_EVENTS.replace('K', 'k') + ' && !pids@.contains((#[trigger] k.delivered[i]).0) '
          '&& 0 <= k.delivered[i].1 <= 3 && k.delivered[i].0 > 0 ==> parked(*k, k.delivered[i])'),
     ], invariant_except_break=[
